@@ -46,6 +46,8 @@ mod vector_join;
 pub use aggregate::{
     AggregateExpr, AggregateFunction, HashAggregateOperator, SimpleAggregateOperator,
 };
+#[cfg(kani)]
+pub use aggregate::VerifAggregateState;
 pub use distinct::DistinctOperator;
 pub use expand::ExpandOperator;
 pub use factorized_aggregate::{
